@@ -10,71 +10,49 @@
    `history_ok H tx cm n`: transactions 1..n read back through commit log cm from tx log tx are
    present, have ids 1..n without gap, each PrevAlh is the Alh recorded for its predecessor and each
    recorded Alh is the record's own (consistent hash chain). *)
-From V Require Import Crash.Protocol Crash.Theorems Crash.Progress Crash.ValuesProofs Crash.Refuted Crash.Examples.
+From V Require Import Crash.Protocol Crash.Theorems Crash.Progress Crash.Refuted Crash.Examples.
 
-(* Write ordering (ack_implies_durable, log part): in EVERY reachable state — any interleaving, any
-   number of earlier crashes — every acknowledged transaction (id <= acked) has its commit-log entry
-   and the tx-log record it points to inside the FSYNCED content of their files, well formed and
-   chained.  (PreallocFiles off; the preallocated variant is refuted below.) *)
-Theorem C03_ack_implies_durable_logs :
-  forall (H : bytes -> bytes), (forall x, length (H x) = 32%nat) ->
-  forall (c : cfg) (nv : nat) (s : st),
-    c_prealloc c = false -> 0 < c_thld c -> reach H c nv s ->
-    acked s <= committed s /\
-    history_ok H (durable (txl s)) (durable (cml s)) (acked s).
-Proof. exact ack_implies_durable_logs. Qed.
-Print Assumptions C03_ack_implies_durable_logs.
-
-(* Crash safety (log part; the strongest form that is TRUE of the code, see the refutations below):
-   for EVERY reachable state and EVERY crash image of it (per file: any prefix of the un-fsynced
-   writes, torn last write, stale bytes past rewound offsets as they are), recovery succeeds, is
-   again a reachable state ready for commits (idle, hash tree re-linked to the precommitted id),
-   every acknowledged transaction is read back BYTE-IDENTICAL, and the recovered committed history
-   is gap-free with a consistent hash chain and extends the acknowledged one. *)
-Theorem C03_crash_safety_partial :
-  forall (H : bytes -> bytes), (forall x, length (H x) = 32%nat) ->
-  forall (c : cfg) (nv : nat) (s : st) (im : images),
-    c_prealloc c = false -> 0 < c_thld c -> reach H c nv s -> crash s im ->
-    exists s', recover H c im = Ok s' /\ reach H c nv s' /\
-      acked s <= committed s' /\ acked s' = committed s' /\ phase_ s' = PIdle /\
-      asize s' = precommitted s' /\
-      (forall k, 1 <= k <= acked s ->
-         tx_at (i_txl im) (i_cml im) k = tx_at (durable (txl s)) (durable (cml s)) k) /\
-      history_ok H (i_txl im) (i_cml im) (committed s').
-Proof. exact crash_safety_logs. Qed.
-Print Assumptions C03_crash_safety_partial.
-
-(* Write ordering, FULL statement (ack_implies_durable), for every state reachable from a fresh store
-   by any sequence of protocol steps (first incarnation): every acknowledged transaction has its
-   commit-log entry, its tx-log record AND its value-log extent inside the fsynced content of their
-   files (the value bytes hash to the digest stored in the record).  After a crash + recovery the
-   value part is no longer an invariant (refutation A below). *)
+(* Write ordering (ack_implies_durable): in EVERY reachable state — any interleaving, any number of
+   earlier crashes and recoveries — every acknowledged transaction (id <= acked) has its commit-log
+   entry, the tx-log record it points to AND the value-log extent the record refers to inside the
+   FSYNCED content of their files; the records are well formed and chained and the value bytes hash
+   to the digest stored in the record.  (PreallocFiles off; the preallocated variant is refuted
+   below.)  The value part holds across crashes since fix ccd70f3 (recovery reloads a precommitted
+   record only with its values). *)
 Theorem C03_ack_implies_durable :
   forall (H : bytes -> bytes), (forall x, length (H x) = 32%nat) ->
   forall (c : cfg) (nv : nat) (s : st),
-    c_prealloc c = false -> 0 < c_thld c -> reach0 H c nv s ->
+    c_prealloc c = false -> 0 < c_thld c -> reach H c nv s ->
     acked s <= committed s /\
     history_ok H (durable (txl s)) (durable (cml s)) (acked s) /\
     forall k, 1 <= k <= acked s -> values_durable_for H s k.
 Proof. exact ack_implies_durable. Qed.
 Print Assumptions C03_ack_implies_durable.
 
-(* ... hence after a FIRST crash (any crash image) the values of every acknowledged transaction are
-   in the value-log image and hash to the digest of the record. *)
-Theorem C03_crash_safety_values_first_crash :
+(* Crash safety (logs AND values; the hash-tree part of the full statement is refuted below):
+   for EVERY reachable state and EVERY crash image of it (per file: any prefix of the un-fsynced
+   writes, torn last write, stale bytes past rewound offsets as they are), recovery succeeds, is
+   again a reachable state ready for commits (idle, hash tree re-linked to the precommitted id) whose
+   files are the images, every acknowledged transaction is read back BYTE-IDENTICAL, the recovered
+   committed history is gap-free with a consistent hash chain and extends the acknowledged one, and
+   EVERY transaction of the recovered committed history has its values in the value-log image. *)
+Theorem C03_crash_safety_values :
   forall (H : bytes -> bytes), (forall x, length (H x) = 32%nat) ->
   forall (c : cfg) (nv : nat) (s : st) (im : images),
-    c_prealloc c = false -> 0 < c_thld c -> reach0 H c nv s -> crash s im ->
-    forall k, 1 <= k <= acked s ->
-      exists raw prev body n v vo vn hv img,
-        tx_at (i_txl im) (i_cml im) k = Some raw /\ parse_rec H raw = Some (k, prev, body, n) /\
-        body_vref body = Some (v, vo, vn, hv) /\ nth_error (i_vls im) (N.to_nat v) = Some img /\
-        vo + vn <= len img /\ H (slice img vo vn) = hv.
-Proof. exact crash_values_first_crash. Qed.
-Print Assumptions C03_crash_safety_values_first_crash.
+    c_prealloc c = false -> 0 < c_thld c -> reach H c nv s -> crash s im ->
+    exists s', recover H c im = Ok s' /\ reach H c nv s' /\
+      acked s <= committed s' /\ acked s' = committed s' /\ phase_ s' = PIdle /\
+      asize s' = precommitted s' /\
+      durable (txl s') = i_txl im /\ durable (cml s') = i_cml im /\ map durable (vls s') = i_vls im /\
+      (forall k, 1 <= k <= acked s ->
+         tx_at (i_txl im) (i_cml im) k = tx_at (durable (txl s)) (durable (cml s)) k) /\
+      history_ok H (i_txl im) (i_cml im) (committed s') /\
+      (forall k, 1 <= k <= committed s' -> values_durable_for H s' k).
+Proof. exact crash_safety. Qed.
+Print Assumptions C03_crash_safety_values.
 
 (* The machine accepts new commits from every idle reachable state whose hash tree is linked up to
-   the precommitted id — in particular from every recovered state (C03_crash_safety_partial gives
+   the precommitted id — in particular from every recovered state (C03_crash_safety_values gives
    exactly these premises): (1) a sync cycle commits and acknowledges the reloaded backlog ... *)
 Theorem C03_backlog_is_committed :
   forall (H : bytes -> bytes), (forall x, length (H x) = 32%nat) ->
@@ -127,29 +105,15 @@ Theorem C03_crash_during_recovery :
 Proof. exact crash_during_recovery. Qed.
 Print Assumptions C03_crash_during_recovery.
 
-(* REFUTED (known finding A): the FULL crash-safety statement also requires every committed
-   transaction to have its values.  Recovery reloads precommitted transactions from the tx log
-   WITHOUT looking at their values: a record that reached the disk (buffer flush) while its values
-   did not is reloaded and then committed: a reachable idle state with a committed, acknowledged
-   transaction whose value extent lies beyond the end of its value log.  Hh = the executable
-   32-byte hash of Crash/ToyHash.v (the positive theorems hold for every H; no witness depends on
-   a property of the hash). *)
-Theorem C03_crash_safety_values_refuted :
-  exists (c : cfg) (nv : nat) (s : st),
-    c_prealloc c = false /\ reach Hh c nv s /\ phase_ s = PIdle /\
-    1 <= acked s /\ committed s = 1 /\ values_readable s 1 = false /\
-    map (fun f => len (lview f)) (vls s) = [0].
-Proof. exact values_refuted. Qed.
-Print Assumptions C03_crash_safety_values_refuted.
-
-(* REFUTED (known finding B): the FULL statement requires the recovered hash tree to hold the Alh of
-   transaction k at leaf k.  The tree fsyncs on its own threshold, possibly ahead of the tx log, and
-   its ResetSize is not durable: after two crashes there is a reachable idle state whose tree has
+(* REFUTED (known finding B; still present after fix 2077e08, which resets the tree to the COMMITTED
+   id: the stale leaf sits at a committed id): the FULL statement requires the recovered hash tree to
+   hold the Alh of transaction k at leaf k.  The tree fsyncs on its own threshold, possibly ahead of
+   the tx log, and its ResetSize is not durable: after two crashes there is a reachable idle state whose tree has
    exactly as many leaves as there are transactions ("binary-linking up to date") while leaf 1 is the
    Alh of a transaction that was lost. *)
 Theorem C03_crash_safety_tree_refuted :
   exists (c : cfg) (nv : nat) (s : st),
-    c_prealloc c = false /\ reach Hh c nv s /\ phase_ s = PIdle /\
+    c_prealloc c = false /\ c_ahtsync c = false /\ reach Hh c nv s /\ phase_ s = PIdle /\
     committed s = 1 /\ acked s = 1 /\ asize s = precommitted s /\ tree_matches s = false.
 Proof. exact tree_refuted. Qed.
 Print Assumptions C03_crash_safety_tree_refuted.
